@@ -100,3 +100,32 @@ func VerifC15Limits() {
 	vapi.Assert(admitted <= int(capv), "C15: never more sessions than the cap")
 	vapi.Reach("limits-end")
 }
+
+// VerifC15LimitsActive: the limits are enforced for every new session, also for a user who is already active (whose
+// record is cached by the panel): after the stored credit / expiry / cap changed to arbitrary values (admin write or
+// usage upload), a further session is admitted only if the user is still entitled.
+func VerifC15LimitsActive() {
+	w := vPanel()
+	w.addUser(vUIDs[0], 3, 1000, 1000, w.now+1000)
+	_, s1, _, err := w.admit(vUIDs[0], 10, "k")
+	vapi.Assert(err == nil && s1 != nil, "C15: entitled user admitted")
+	capv := vapi.I32("cap")
+	up := vapi.I64("up")
+	down := vapi.I64("down")
+	exp := vapi.I64("exp")
+	vapi.Assume(capv >= 0)
+	vapi.Assume(capv <= 3)
+	w.addUser(vUIDs[0], capv, up, down, exp)
+	ok := vapi.And(vapi.And(up > 0, down > 0), exp >= w.now)
+	u, s2, existing, err := w.admit(vUIDs[0], 11, "k")
+	vapi.Assert(vapi.Implies(err == nil, ok), "C15: an active user whose credit is exhausted or whose expiry has passed cannot start a further session")
+	vapi.Assert(vapi.Implies(err == nil, capv >= 2), "C15: never more sessions than the cap (active user)")
+	vapi.Assert(vapi.Implies(vapi.And(ok, capv >= 2), err == nil && s2 != nil && !existing), "C15: an entitled active user below its cap is admitted")
+	if u != nil && err != nil {
+		vapi.Assert(u.NumSession() == 1, "C15: a refused admission leaves the live session count unchanged")
+	}
+	// joining the existing session is not a new session: always allowed
+	_, s1b, ex, err := w.admit(vUIDs[0], 10, "k")
+	vapi.Assert(err == nil && s1b == s1 && ex, "C15: a connection for a live session joins it")
+	vapi.Reach("limits-active-end")
+}
